@@ -27,7 +27,8 @@ def slotOf : String → Option Slot
     | none => none
 
 def cmpOf (s : String) : Cmp := if s == "le" then .le else .lt
-def resortOf (s : String) : Resort := if s == "own" then .own else if s == "int64" then .int64 else .none
+def resortOf (s : String) : Resort :=
+  if s == "own" then .own else if s == "int64" then .int64 else if s == "invalidate" then .invalidate else .none
 
 def optT : String → Option (Option Int)
   | "-" => some none
